@@ -62,10 +62,17 @@ const FN_NAMES: [&str; 3] = ["bump", "boom", "nope"];
 
 /// Highest ledger the harness moves to.  The test host computes `sequence + ttl - 1` with
 /// checked arithmetic when it (auto-)restores or extends an entry and escalates the overflow
-/// to a panic ("ledger is mis-configured"), so the last `max_entry_ttl` ledgers of the u32
+/// to a panic ("ledger is mis-configured"), so the last `max_entry_ttl` (+ slack) ledgers of the u32
 /// range cannot be visited.  Saturated ready ledgers (= u32::MAX) are therefore observed only
 /// as stored values / Waiting; their Ready side is covered by the theorems, not by this run.
-const CAP: u32 = u32::MAX - 600_000;
+const CAP: u32 = u32::MAX - 7_000_000;
+
+/// host configurations (min_temp_entry_ttl, min_persistent_entry_ttl, max_entry_ttl): both let the library's own
+/// extend_ttl calls (518 400 ledgers) succeed on any kind of entry; the first is small enough that genuinely
+/// persistent entries expire and are auto-restored during the long gaps, the second is mainnet-like.
+const HOSTCFG: [(u32, u32, u32); 2] = [(1, 4096, 3_110_400), (16, 2_073_600, 6_312_000)];
+/// long ledger gaps (one Advance each) between a state change and the next question about that state
+const LONG_GAPS: [u32; 6] = [20, 100, 17_281, 20_000, 600_000, 4_000_000];
 
 struct World {
     e: Env,
@@ -77,15 +84,15 @@ struct World {
 }
 
 impl World {
-    fn new(now: u32) -> World {
+    fn new(now: u32, hc: usize) -> World {
         let e = Env::default();
         e.cost_estimate().budget().reset_unlimited();
         e.cost_estimate().disable_resource_limits();
         e.ledger().with_mut(|l| {
             l.sequence_number = now;
-            l.min_temp_entry_ttl = 1;
-            l.min_persistent_entry_ttl = 4096;
-            l.max_entry_ttl = 550_000;
+            l.min_temp_entry_ttl = HOSTCFG[hc].0;
+            l.min_persistent_entry_ttl = HOSTCFG[hc].1;
+            l.max_entry_ttl = HOSTCFG[hc].2;
         });
         let tl = e.register(Tl, ());
         let tgt = e.register(Target, ());
@@ -135,11 +142,15 @@ fn observe(w: &World, nids: usize, tags: &[u32]) -> String {
     let mut ops = std::vec::Vec::new();
     for k in 0..nids {
         let idb = w.bytes(&w.ids[k]);
-        let ov = format!("(OV {} {} {} {} {} {})", c.ledger_of(&idb), st_name(c.state_of(&idb)), b(c.exists(&idb)), b(c.pending(&idb)), b(c.ready(&idb)), b(c.done(&idb)));
+        // every read goes through try_: a trapping getter becomes a sentinel (-1 / Unset / false) that diff and monitor flag
+        let lg = match c.try_ledger_of(&idb) { Ok(Ok(v)) => format!("{}", v), _ => "(-1)".to_string() };
+        let st = match c.try_state_of(&idb) { Ok(Ok(v)) => st_name(v), _ => "Unset" };
+        let fl = |r: Result<Result<bool, soroban_sdk::ConversionError>, Result<soroban_sdk::Error, soroban_sdk::InvokeError>>| b(matches!(r, Ok(Ok(true))));
+        let ov = format!("(OV {} {} {} {} {} {})", lg, st, fl(c.try_exists(&idb)), fl(c.try_pending(&idb)), fl(c.try_ready(&idb)), fl(c.try_done(&idb)));
         ops.push(pair(&n(k as u64), &ov));
     }
     let mut runs = std::vec::Vec::new();
-    for &tg in tags { runs.push(pair(&n(tg as u64), &format!("{}", t.count(&tg)))); }
+    for &tg in tags { runs.push(pair(&n(tg as u64), &match t.try_count(&tg) { Ok(Ok(v)) => format!("{}", v), _ => "(-1)".to_string() })); }
     format!("(Obs {} {} {} {})", w.now, opt(md), list(&ops), list(&runs))
 }
 
@@ -150,8 +161,8 @@ struct Tr { w: World, descs: std::vec::Vec<Desc>, op_ids: std::vec::Vec<usize>, 
 
 impl Tr {
     /// build a universe of operations; `shape` selects the predecessor structure
-    fn new(rng: &mut Rng, now0: u32, nops: usize, shape: u64) -> Tr {
-        let mut w = World::new(now0);
+    fn new(rng: &mut Rng, now0: u32, nops: usize, shape: u64, hc: usize) -> Tr {
+        let mut w = World::new(now0, hc);
         let c = TlClient::new(&w.e, &w.tl);
         // a raw id that is never the hash of a scheduled operation
         let mut raw = [0u8; 32];
@@ -181,7 +192,7 @@ impl Tr {
             // no duplicate descriptors in the universe
             let d = if descs.iter().any(|x| x.target == d.target && x.f == d.f && x.tag == d.tag && x.pred == d.pred && x.salt == d.salt) {
                 Desc { salt: 10 + k as u8, ..d } } else { d };
-            let h = to_arr(&c.hash(&w.operation(&d)));
+            let h = match c.try_hash(&w.operation(&d)) { Ok(Ok(v)) => to_arr(&v), _ => [0xEEu8; 32] };
             let ix = w.id_ix(h) as usize;
             let oc = w.op_coq(&d);
             tbl.push(pair(&oc, &n(ix as u64)));
@@ -236,7 +247,7 @@ impl Tr {
                 let nn = self.w.now.checked_add(*k).filter(|v| *v <= CAP);
                 assert!(nn.is_some(), "generator must keep the ledger <= CAP");
                 match nn {
-                    Some(v) => { self.w.set_now(v); (format!("Advance {}", k), "advance", Some(None)) }
+                    Some(v) => { self.w.set_now(v); (format!("Advance {}", k), if *k >= 17_281 { "advance_long" } else { "advance" }, Some(None)) }
                     None => (format!("Advance {}", k), "advance", None),
                 }
             }
@@ -255,7 +266,7 @@ impl Tr {
     }
 
     // ---- state the generator may read (adaptive generation) ----
-    fn ledger_of(&self, ix: usize) -> u32 { TlClient::new(&self.w.e, &self.w.tl).ledger_of(&self.w.bytes(&self.w.ids[ix])) }
+    fn ledger_of(&self, ix: usize) -> u32 { match TlClient::new(&self.w.e, &self.w.tl).try_ledger_of(&self.w.bytes(&self.w.ids[ix])) { Ok(Ok(v)) => v, _ => 0 } }
     fn min_delay(&self) -> Option<u32> { match TlClient::new(&self.w.e, &self.w.tl).try_min_delay() { Ok(Ok(v)) => Some(v), _ => None } }
 }
 
@@ -301,7 +312,7 @@ fn random_call0(rng: &mut Rng, tr: &Tr) -> C {
                 // keep the ledger moderate unless the trace is about saturation
                 if gap > 100_000 && rng.chance(9, 10) { C::Advance(rng.below(4) as u32) }
                 else { match rng.below(4) { 0 => C::Advance(gap - 1), 1 | 2 => C::Advance(gap), _ => C::Advance(gap.saturating_add(1)) } }
-            } else { C::Advance(rng.below(4) as u32) }
+            } else if rng.chance(1, 5) { C::Advance(*rng.pick(&LONG_GAPS)) } else { C::Advance(rng.below(4) as u32) }
         }
     }
 }
@@ -316,7 +327,7 @@ fn main() {
     // ---------- directed corpus ----------
     // 1. happy path with every boundary: schedule at min, ready-1, ready, execute twice, cancel/schedule after done
     for start in [2u32, 3, 1000] {
-        let mut tr = Tr::new(&mut rng, start, 3, 0);
+        let mut tr = Tr::new(&mut rng, start, 3, 0, (start % 2) as usize);
         let (a, bq) = (0usize, 1usize);
         let ida = tr.op_ids[a];
         let script = [C::Schedule(a, 0), C::SetMin(5), C::Schedule(a, 4), C::Schedule(a, 5), C::Schedule(a, 5), C::Schedule(bq, 7),
@@ -327,7 +338,7 @@ fn main() {
     }
     // 2. cancel then re-schedule; predecessor cancelled / unscheduled; min delay raised after scheduling
     {
-        let mut tr = Tr::new(&mut rng, 50, 3, 0);
+        let mut tr = Tr::new(&mut rng, 50, 3, 0, 0);
         let script = [C::SetMin(2), C::Schedule(0, 2), C::Schedule(1, 2), C::Advance(1), C::Cancel(tr.op_ids[0]), C::Cancel(tr.op_ids[0]), C::Advance(1), C::Execute(1), C::Execute(0),
             C::Schedule(0, 3), C::SetMin(100), C::Advance(2), C::Execute(0), C::Advance(1), C::Execute(0), C::Execute(1), C::Schedule(2, 99), C::Schedule(2, 100), C::SetMin(0), C::Cancel(tr.op_ids[2]), C::Schedule(2, 0), C::Execute(2), C::SetExecute(2), C::Cancel(0), C::Cancel(1)];
         for c in script.iter() { tr.call(&mut out, c); }
@@ -335,11 +346,33 @@ fn main() {
     }
     // 3. saturation: delays near u32::MAX never become ready before the last ledger
     {
-        let mut tr = Tr::new(&mut rng, 10, 3, 1);
+        let mut tr = Tr::new(&mut rng, 10, 3, 1, 1);
         let script = [C::SetMin(0), C::Schedule(0, u32::MAX), C::Schedule(1, u32::MAX - 10), C::Schedule(2, u32::MAX - 11), C::Advance(1), C::Execute(0), C::Execute(1), C::Execute(2),
             C::Advance(1_000_000), C::Execute(2), C::Cancel(tr.op_ids[0]), C::SetMin(u32::MAX), C::Schedule(0, u32::MAX - 1), C::Schedule(0, u32::MAX), C::Execute(0)];
         for c in script.iter() { tr.call(&mut out, c); }
         tr.finish(&mut out, "directed/saturation");
+    }
+
+    // 4. persistence: every kind of stored item (minimum delay, Waiting / Ready / Done marks, cancelled = absent)
+    //    must survive long ledger gaps; each gap is ONE Advance, the observation after it reads everything once
+    for hc in 0..2usize {
+        for (gi, &gap) in LONG_GAPS.iter().enumerate() {
+            let mut tr = Tr::new(&mut rng, 100 + gi as u32, 4, 0, hc);   // chain A <- B <- C <- D
+            let ids = tr.op_ids.clone();
+            let pre = [C::SetMin(3), C::Schedule(0, 3), C::Schedule(1, 3), C::Schedule(2, gap.saturating_add(5)), C::Schedule(3, 3), C::Advance(3), C::Execute(0), C::Cancel(ids[3])];
+            for c in pre.iter() { tr.call(&mut out, c); }
+            // A is Done, B is Ready, C is Waiting beyond the gap, D cancelled (absent), min delay 3
+            tr.call(&mut out, &C::Advance(gap));
+            let post = [C::Schedule(0, 3), C::Cancel(ids[0]), C::Execute(0), C::SetExecute(0),   // Done forever
+                C::Schedule(3, 2), C::Schedule(3, 3),                                            // min delay still in force; D re-schedulable
+                C::Execute(2),                                                                   // C still waiting (gap + 5 > gap + 3 ... ready at +2)
+                C::Execute(1), C::Execute(1), C::Advance(2), C::Execute(2), C::Cancel(ids[1]), C::Schedule(1, 3)];
+            for c in post.iter() { tr.call(&mut out, c); }
+            tr.call(&mut out, &C::Advance(gap));
+            let post2 = [C::Schedule(0, 3), C::Schedule(1, 3), C::Schedule(2, 3), C::Execute(3), C::Execute(3), C::Cancel(ids[2])];
+            for c in post2.iter() { tr.call(&mut out, c); }
+            tr.finish(&mut out, &format!("directed/persistence-gap{}-host{}", gap, hc));
+        }
     }
 
     // ---------- random adaptive traces ----------
@@ -348,7 +381,8 @@ fn main() {
         let shape = rng.below(4);
         let nops = 2 + rng.below(if thorough { 6 } else { 5 }) as usize;
         let start = match rng.below(6) { 0 => 2, 1 => 3, 2 => 2 + rng.below(1000) as u32, 3 => 1_000_000 + rng.below(1000) as u32, _ => 2 + rng.below(50) as u32 };
-        let mut tr = Tr::new(&mut rng, start, nops, shape);
+        let hc = rng.below(2) as usize;
+        let mut tr = Tr::new(&mut rng, start, nops, shape, hc);
         if rng.chance(9, 10) { let c = C::SetMin(match rng.below(5) { 0 => 0, 1 => 1, _ => rng.below(6) as u32 }); tr.call(&mut out, &c); }
         let len = if thorough { 30 + rng.below(50) } else { 20 + rng.below(30) } as usize;
         for _ in 0..len { let c = random_call(&mut rng, &tr); tr.call(&mut out, &c); }
@@ -361,7 +395,7 @@ fn main() {
         let depth = 5u32;
         let total = alphabet.pow(depth);
         for code in 0..total {
-            let mut tr = Tr::new(&mut rng, 7, 2, 0);
+            let mut tr = Tr::new(&mut rng, 7, 2, 0, code % 2);
             tr.call(&mut out, &C::SetMin(2));
             let mut x = code;
             for _ in 0..depth {
